@@ -116,6 +116,7 @@ def search(drv, rep, depth, budget_s=None, merge_check=True, label=None):
     level = 0
     per_level = []
     obs_classes = {}
+    obs_stats = {}
     stats = {}
     closed = False
     cap = None
@@ -155,6 +156,9 @@ def search(drv, rep, depth, budget_s=None, merge_check=True, label=None):
                     continue   # only used for the merge self-check
                 n_trans += 1
                 rep.extend(tv)
+                if isinstance(obs, dict) and "_stats" in obs:
+                    for sk, sv in obs["_stats"].items():
+                        obs_stats[sk] = obs_stats.get(sk, 0) + sv
                 key = (json.dumps(drv.ops[i], sort_keys=True)[:60],
                        json.dumps(obs, sort_keys=True, default=repr)[:80])
                 obs_classes[key] = obs_classes.get(key, 0) + 1
@@ -199,6 +203,7 @@ def search(drv, rep, depth, budget_s=None, merge_check=True, label=None):
     info = {"ops": len(drv.ops), "depth_completed": level,
             "closed": closed, "cap_hit": cap, "levels": per_level,
             "distinct_observation_classes": len(obs_classes),
+            "obs_stats": obs_stats,
             "stats": {k: (len(v) if isinstance(v, set) else v)
                       for k, v in stats.items()}}
     rep.cov.setdefault("drivers", {})[label] = dict(info)
